@@ -17,12 +17,14 @@ enum McCost
   MC_PREEMPT = 1, // switch away from a thread that could have continued
   MC_TIMER = 2,   // a timed wait / sleep expires although other threads are enabled
   MC_ENV = 3,     // a non-default environment answer (short write, EAGAIN, spurious wake, ...)
+  MC_SWITCH = 4,  // non-default successor when the running thread blocked/finished (only charged if bounds.S >= 0)
 };
 
 struct McBounds
 {
   int P = 0, T = 0, E = 0; // per-class deviation caps
-  int total = -1;          // cap on the sum (-1: P+T+E)
+  int S = -1;              // cap on non-default successors at blocking points; -1 = unbounded (free, CHESS-style)
+  int total = -1;          // cap on the sum (-1: P+T+E(+S))
 };
 
 struct McScenario
